@@ -12,10 +12,19 @@ def run(ded, repo, tier):
                         [dict(module='contracts.iset_core', repo=repo, q=q, tier=tier, clause_of={'*': 'list_style_ops'})
                          for q in core.FUNCS] +
                         [dict(module='contracts.iset_rm', repo=repo, q=q, tier=tier, label=q + '[full invariant]',
-                              clause_of={'*': 'list_style_ops'}) for q in rm.FUNCS])
-    ded.trust('ASSUMED contract (not verified) for IndexedSet._cull, used by remove/discard: it may rearrange slots and dead intervals '
+                              clause_of={'*': 'list_style_ops'}) for q in rm.FUNCS] +
+                        [dict(module='contracts.iset_rm', repo=repo, q='IndexedSet.pop', variant=v, tier=tier,
+                              clause_of={'*': 'list_style_ops'}) for v in ('last', 'index')] +
+                        [dict(module='contracts.iset_real', repo=repo, q='IndexedSet._get_real_index', tier=tier,
+                              label='IndexedSet._get_real_index[all-pairs invariant, result not dead]', clause_of={'*': 'index_translation'})])
+    ded.assume('pop(index) (contracts/iset_rm.py): index is None, -1 or non-negative (other negative indices are not under contract); '
+               'None / -1 / len-1 return the item with the greatest slot, any other index the item in the index-th live slot (through the '
+               'contract of _get_real_index verified in contracts/iset_real.py, its loop-index witness existentially quantified at the call); '
+               'the key set loses exactly the returned item, the other keys keep their relative order; an IndexError leaves the state '
+               'unchanged (WHEN it is raised - index >= len - is not under contract: it needs the count of live slots)')
+    ded.trust('ASSUMED contract (not verified) for IndexedSet._cull, used by remove/discard/pop: it may rearrange slots and dead intervals '
               'but keeps the full invariant (I1, I2, sorted disjoint dead intervals, I4 a slot is _MISSING exactly when an interval '
-              'covers it, I5 intervals end inside the slot list), the key set and the relative order of the keys; its body (negative '
+              'covers it, I5 intervals end inside the slot list) and re-establishes I6 (the last slot is live), keeps the key set and the relative order of the keys; its body (negative '
               'indices, slice deletes, compaction through a generator expression) is outside the verified subset and is decided by the '
               'bounded layer only')
     ded.assume('remove/discard/add/clear[full invariant] (contracts/iset_rm.py): the abstract list is the key set of the index map '
@@ -23,7 +32,7 @@ def run(ded, repo, tier):
                '(state untouched) exactly for a non-member; _add_dead is used by its proved contract')
     ded.assume('item/slot representation (contracts/iset_core.py): I1 every key of item_index_map points at the slot of item_list that '
                'holds it, I2 every slot that is not _MISSING holds a key that points back at it; add/clear are proved to preserve it, '
-               'pop/_cull/_compact/reverse/sort and the bulk operations are NOT under contract (remove/discard: see the full-invariant contracts); arguments are not the private '
+               '_cull/_compact/reverse/sort and the bulk operations are NOT under contract (remove/discard/pop: see the full-invariant contracts); arguments are not the private '
                '_MISSING sentinel; index(): the proved postcondition of _get_apparent_index is restated with its witness existentially '
                'quantified and used by contract')
     ded.assume('dead_indices is a sorted list of disjoint, non-empty [start, stop) intervals (the representation invariant of '
@@ -34,4 +43,4 @@ def run(ded, repo, tier):
                'remove() and pop(); the clauses labelled wf / representation lemma are auxiliary (a refuted one loses the proof and is '
                'not reported as a violation)')
     ded.assume('prefix lengths of the dead intervals are non-negative (induction over the interval list not mechanised)')
-    ded.trust('not under contract (bounded only): everything else in IndexedSet (pop, compaction and culling, set algebra, slices, iteration, reverse/sort)')
+    ded.trust('not under contract (bounded only): everything else in IndexedSet (compaction and culling, set algebra, slices, iteration, reverse/sort)')
